@@ -11,9 +11,12 @@
 (*             verifying party).  The verdict is TRUE exactly on the diagonal of the parameter    *)
 (*             matrix and only while nothing was tampered with.                                   *)
 (*                                                                                                *)
-(* Parties: "spsdk" (the code under test), "indep" (`cryptography` called directly with the       *)
-(* standard parameters), "pure" (pure-Python verification on integers, hashlib).  The spec does   *)
-(* not distinguish them: that every party gives the same answer IS the requirement.               *)
+(* Parties: "spsdk" (the library under test), "cli" (the same through `nxpcrypto key convert /    *)
+(* signature create / signature verify`, i.e. PlainFileSP + SignatureProvider.get_signature),     *)
+(* "indep" (`cryptography` called directly with the standard parameters), "pure" (pure-Python     *)
+(* verification on integers, hashlib).  The spec does not distinguish them: that every party      *)
+(* gives the same answer IS the requirement.  The command line has no option for pre-hashed data, *)
+(* no password on `key convert` and raw output for ECC public keys only: guards, not verdicts.    *)
 EXTENDS KeyCodec
 VARIABLES obj,      \* the abstract artefact in flight
           act       \* the last action with its arguments and required outcome (binding point for traces)
@@ -23,28 +26,30 @@ Flows == {"key", "sig"}
 Fmts(kk) == IF kk = "priv" THEN {"PEM", "DER"} ELSE {"PEM", "DER", "NXP"}        \* NXP raw exists for public keys only
 Pwds(kk) == IF kk = "priv" THEN {"none", "pw"} ELSE {"none"}
 ExpLens(kt, fmt) == IF kt = "rsa" /\ fmt = "NXP" THEN {3, 4} ELSE {0}             \* width of the RSA exponent in NXP form
-Entries == {"typed", "auto", "any", "file"}    \* PublicKeyEcc.parse | PublicKey.parse | extract_public_key_from_data | save + load
-Exporters == {"spsdk", "indep"}
+Entries == {"typed", "auto", "any", "file", "cli"}    \* PublicKeyEcc.parse | PublicKey.parse | extract_public_key_from_data | save + load | nxpcrypto key convert
+Exporters == {"spsdk", "indep", "cli"}
 Parsers == {"spsdk", "indep"}
-Signers == {"spsdk", "indep"}
-Verifiers == {"spsdk", "indep", "pure"}
+Signers == {"spsdk", "indep", "cli"}
+Verifiers == {"spsdk", "indep", "pure", "cli"}
 Tampers == {"sigbit", "msgbit", "msg", "key"}
 Vias == {"sigclass", "serialize", "provider", "indep"}   \* ECDSASignature parse+export | KeyEccCommon.serialize_signature | SignatureProvider.get_signature | pure Python
 
-Start(flow, kt, size, dflt) ==
-  [flow |-> flow, kt |-> kt, size |-> size, dflt |-> dflt,
+Start(flow, kt, size, dflt, kk0) ==
+  [flow |-> flow, kt |-> kt, size |-> size, dflt |-> dflt, kk0 |-> kk0,      \* kk0: what the behaviour starts from
    form |-> IF flow = "key" THEN "object" ELSE "none",          \* key: object | bytes ;  sig: none | sig
-   kk |-> "priv", fmt |-> "-", pwd |-> "none",                  \* key flow
+   kk |-> kk0, fmt |-> "-", pwd |-> "none",                     \* key flow
    hash |-> "-", pad |-> "-", enc |-> "-", intact |-> TRUE, sigmod |-> FALSE]     \* sig flow
 
-Init == \E k \in KeyTypes : \E flow \in Flows :
-          /\ obj = Start(flow, k.kt, k.size, DefaultHash(k.kt, k.size))
+Init == \E k \in KeyTypes : \E flow \in Flows : \E kk0 \in {"priv", "pub"} :
+          /\ (flow = "sig" => kk0 = "priv")
+          /\ obj = Start(flow, k.kt, k.size, DefaultHash(k.kt, k.size), kk0)
           /\ act = [a |-> "Init"]
 
 \* ------------------------------------------------------------------ key flow
 Export(fmt, pwd, el, by) ==
   /\ obj.flow = "key" /\ obj.form = "object"
   /\ fmt \in Fmts(obj.kk) /\ pwd \in Pwds(obj.kk) /\ el \in ExpLens(obj.kt, fmt) /\ by \in Exporters
+  /\ (by = "cli" => pwd = "none" /\ (fmt = "NXP" => obj.kt = "ecc"))
   /\ obj' = [obj EXCEPT !.form = "bytes", !.fmt = fmt, !.pwd = pwd]
   /\ act' = [a |-> "Export", fmt |-> fmt, pwd |-> pwd, el |-> el, by |-> by,
              len |-> IF fmt = "NXP" THEN NxpLen(obj.kt, obj.size, el) ELSE 0, encrypted |-> pwd = "pw"]
@@ -52,7 +57,7 @@ Export(fmt, pwd, el, by) ==
 \* every other attempt.  A password offered for an open container is outside the stated domain (no action).
 Parse(entry, given, by) ==
   /\ obj.flow = "key" /\ obj.form = "bytes"
-  /\ entry \in Entries /\ by \in Parsers /\ (by = "indep" => entry = "typed")
+  /\ entry \in Entries /\ by \in Parsers /\ (by = "indep" => entry = "typed") /\ (entry = "cli" => obj.pwd = "none")
   /\ given \in (IF obj.pwd = "pw" THEN {"pw", "none", "wrong"} ELSE {"none"})
   /\ IF given = obj.pwd
      THEN /\ obj' = [obj EXCEPT !.form = "object", !.fmt = "-", !.pwd = "none",
@@ -66,7 +71,7 @@ ToPublic == /\ obj.flow = "key" /\ obj.form = "object" /\ obj.kk = "priv"
 \* ------------------------------------------------------------------ signature flow
 Sign(P, by) ==
   /\ obj.flow = "sig" /\ obj.form = "none"
-  /\ P \in SignParams(obj.kt) /\ by \in Signers /\ (by = "indep" => P.hash # "default")
+  /\ P \in SignParams(obj.kt) /\ by \in Signers /\ (by = "indep" => P.hash # "default") /\ (by = "cli" => ~P.pre)
   /\ obj' = [obj EXCEPT !.form = "sig", !.hash = Eff(P.hash, obj.dflt), !.pad = P.pad, !.enc = P.enc]
   /\ act' = [a |-> "Sign", P |-> P, by |-> by]
 \* raw <-> DER: lossless, so neither the scheme nor `intact` changes.  "serialize" knows DER -> raw only.
@@ -81,7 +86,7 @@ Tamper(what) ==
   /\ act' = [a |-> "Tamper", what |-> what]
 Verify(Q, by) ==
   /\ obj.flow = "sig" /\ obj.form = "sig"
-  /\ Q \in VerParams(obj.kt) /\ by \in Verifiers /\ (by # "spsdk" => Q.hash # "default")
+  /\ Q \in VerParams(obj.kt) /\ by \in Verifiers /\ (by \in {"indep", "pure"} => Q.hash # "default") /\ (by = "cli" => ~Q.pre)
   /\ act' = [a |-> "Verify", Q |-> Q, by |-> by, res |-> VerifyExpected(obj.hash, obj.pad, obj.intact, Q, obj.dflt)]
   /\ UNCHANGED obj
 
